@@ -11,7 +11,7 @@ TARGET = dict(
     assumptions=["reference implementations of the chunking and TS locking rules in the harness (written from the pipes' documentation and code comments)",
                  "upipe_ts_*.c compiled against the stand-in <bitstream/mpeg/ts.h> (only TS_SIZE / TS_SYNC are used)"],
     execs=[dict(name="rechunk", harness="harness/C14_rechunk.c", repo=LIBUPIPE + MODS + TS, engine=PIPEFIX, hang_is_violation=True)],
-    quick=dict(cases=6000, budget=40), thorough=dict(cases=150000, budget=600),
+    quick=dict(cases=40000, budget=40), thorough=dict(cases=150000, budget=600),
 )
 META = dict(
     technique="property-based testing (rapidcheck tapes -> C executor over real pipes): reference model + metamorphic relation (same stream, different cuttings)",
